@@ -382,27 +382,31 @@ def rule_val1(A: Analysis, rep):
     rep.check(ok, "VAL1", "unknown parameters rejected", v.node, "", "the validator no longer rejects parameters outside the schema")
     lf = A.fn("task_types.raw.RawTaskType.load_from_cond_file")
     g = A.cfg(lf, "plain")
-    val = [n for n in g.nodes if n.kind == "stmt" and norm(n.ast) == "self._validator(args)"]
+    # the merged dict is whatever the validator is applied to
+    vcalls = [n for n in g.nodes if n.kind == "stmt" and isinstance(n.ast, ast.Expr) and isinstance(n.ast.value, ast.Call)
+              and norm(n.ast.value.func) == "self._validator" and len(n.ast.value.args) == 1 and isinstance(n.ast.value.args[0], ast.Name)]
+    MV = vcalls[0].ast.value.args[0].id if vcalls else "args"
+    val = [n for n in vcalls if n.ast.value.args[0].id == MV]
     rets = [n for n in g.nodes if n.kind == "stmt" and isinstance(n.ast, ast.Return)]
     nm = [n for n in g.nodes if n.kind == "stmt" and isinstance(n.ast, ast.Raise) and "InvalidTaskName" in norm(n.ast)]
-    merged = A.single_def_value(lf, "args")
+    merged = A.single_def_value(lf, MV)
     kw = lf.node.args.kwarg.arg if lf.node.args.kwarg is not None else "kwargs"
     # "defaults overridden by the user's values", in any of its spellings
     one_shot = {"{**self._defaults, **%s}" % kw, "dict(self._defaults, **%s)" % kw, "self._defaults | %s" % kw, "{**self._defaults} | %s" % kw}
     copies = {"dict(self._defaults)", "self._defaults.copy()", "{**self._defaults}", "dict(**self._defaults)"}
     muts = [n for n in g.nodes if n.kind == "stmt" and n.ast is not None and any(
-        (isinstance(x, ast.Call) and isinstance(x.func, ast.Attribute) and norm(x.func.value) == "args" and x.func.attr in ("update", "pop", "clear", "setdefault", "popitem")) or
-        (isinstance(x, (ast.Assign, ast.Delete)) and any(isinstance(t_, ast.Subscript) and norm(t_.value) == "args" for t_ in (x.targets if hasattr(x, "targets") else [])))
+        (isinstance(x, ast.Call) and isinstance(x.func, ast.Attribute) and norm(x.func.value) == MV and x.func.attr in ("update", "pop", "clear", "setdefault", "popitem")) or
+        (isinstance(x, (ast.Assign, ast.Delete)) and any(isinstance(t_, ast.Subscript) and norm(t_.value) == MV for t_ in (x.targets if hasattr(x, "targets") else [])))
         for x in ast.walk(n.ast))]
     muts_before = [m_ for m_ in muts if val and any(g.reachable(m_, v_, skip_labels=skip) for v_ in val)]
     ok_merge = False
     if merged is not None and norm(merged) in one_shot:
         ok_merge = not muts_before
     elif merged is not None and norm(merged) in copies:
-        ok_merge = len(muts_before) == 1 and norm(muts_before[0].ast) in ("args.update(%s)" % kw, "args.update(**%s)" % kw) and \
+        ok_merge = len(muts_before) == 1 and norm(muts_before[0].ast) in ("%s.update(%s)" % (MV, kw), "%s.update(**%s)" % (MV, kw)) and \
             all(g.all_paths_pass(g.entry, v_, muts_before, skip_labels=skip) for v_ in val)
     ok = bool(val) and bool(rets) and all(g.all_paths_pass(g.entry, r, val, skip_labels=skip) for r in rets) and len(nm) == 1 and \
-        A.path_guards(g, g.entry, nm[0], lf, xstop=["args"]) == [frozenset({("t(TaskIdentifier.is_name_valid(args['name']))", False)})] and ok_merge
+        A.path_guards(g, g.entry, nm[0], lf, xstop=[MV]) == [frozenset({("t(TaskIdentifier.is_name_valid(%s['name']))" % MV, False)})] and ok_merge
     rep.check(ok, "VAL1", "definitions are validated, named validly, defaults overridden by the user's values", lf.node, "", "load_from_cond_file no longer validates (schema, then name) the merged arguments")
     rt = A.fn("task_types.raw.RawTaskType.__init__")
     rep.check(any(isinstance(s, ast.Assign) and norm(s.targets[0]) == "self._validator" and norm(s.value) == "generate_type_validator(%s, %s)" % (rt.params[1], rt.params[2]) for s in rt.node.body), "VAL1", "validator built from the type's own schema", rt.node, "", "the validator is not generated from (name, schema)", deep=False)
@@ -497,7 +501,8 @@ def rule_inc1(A: Analysis, rep):
     rep.check(ok, "INC1", "only .cond files may be included", fi.node, "", "the extension check changed (extension %r)" % (ext,))
     h1 = [h for h in walk_local(fi.node) if isinstance(h, ast.ExceptHandler) and h.type is not None and norm(h.type) == "FileNotFoundError"]
     ok = len(h1) == 1 and any(isinstance(x, ast.Raise) and "IncludeFileNotFound" in norm(x) for x in h1[0].body) and \
-        any(isinstance(c, ast.Call) and norm(c) == "include_path.resolve(strict=True)" for t in _anc(h1[0]) if isinstance(t, ast.Try) for b in t.body for c in ast.walk(b))
+        any(isinstance(c, ast.Call) and isinstance(c.func, ast.Attribute) and c.func.attr == "resolve" and isinstance(c.func.value, ast.Name)
+            and norm(A.kw(c, "strict") or ast.Constant(value=False)) == "True" for t in _anc(h1[0]) if isinstance(t, ast.Try) for b in t.body for c in ast.walk(b))
     rep.check(ok, "INC1", "missing include ⇒ IncludeFileNotFound", fi.node, "", "a non-existent included file is no longer reported cleanly")
     h2 = [h for h in walk_local(fi.node) if isinstance(h, ast.ExceptHandler) and h.type is not None and norm(h.type) == "ValueError"]
     ok = len(h2) == 1 and any(isinstance(x, ast.Raise) and "IncludeFileNotInProject" in norm(x) for x in h2[0].body) and \
@@ -541,7 +546,17 @@ def rule_inc1(A: Analysis, rep):
                 okx = okx and lv is not None and isinstance(lv, ast.Dict) and not lv.keys
     rep.check(okx, "INC1", "included files see no task constructors and no include()", fi.node, "exec(code, {}, fresh_scope)", "the included file is evaluated in a scope that may contain Conductor's symbols (it could define tasks or include files)")
     # path resolution: // = project root, otherwise relative to the including COND file
-    defs = sorted(norm(d.value) for d in A.defs(fi, "include_path") if isinstance(d, ast.Assign))
-    ok = "self._project_root.joinpath(%s[2:])" % cp in defs and "self._current_cond_file_path.parent.joinpath(%s)" % cp in defs
+    # … decided on what is handed to resolve(): the value reaching it, per path condition
+    res_calls = [c for c in walk_local(fi.node) if isinstance(c, ast.Call) and isinstance(c.func, ast.Attribute) and c.func.attr == "resolve"
+                 and norm(A.kw(c, "strict") or ast.Constant(value=False)) == "True"]
+    defs = []
+    ok = False
+    if len(res_calls) == 1:
+        st_ = res_calls[0]
+        while not isinstance(st_, ast.stmt):
+            st_ = st_._parent
+        defs = sorted((fmt_conj(c_), v_) for c_, v_ in A.rvalues(fi, res_calls[0].func.value, st_, g, keep=lambda a: a == "t(%s.startswith('//'))" % cp, depth=3, calls=True))
+        ok = defs == sorted([("t(%s.startswith('//'))" % cp, "self._project_root.joinpath(%s[2:])" % cp),
+                             ("!t(%s.startswith('//'))" % cp, "self._current_cond_file_path.parent.joinpath(%s)" % cp)])
     rep.check(ok, "INC1", "include paths: //… from the root, others relative to the COND file", fi.node, "", "include path resolution changed: %s" % defs)
     rep.expect_min("INC1", 8)
